@@ -123,7 +123,7 @@ PROPS["C20"] = {
 PROPS["C02"] = {
     "level": "other",
     "technique": "Verus contracts on the extracted CAS machinery: the cas_retry! macro body (at most 5 attempts, Ok only from a successful attempt, conflict => retry, other errors returned at once), put_with_cas (create-if-absent / update-if-ETag, conflicts mapped to Error::Conflict, overwrite only behind the opt-in) and the one-attempt bodies of register / delete / complete_compaction as pure transformers of the catalog loaded in the same attempt that keep chunk map and time index consistent",
-    "verus": ["c02_cas.rs.in", "c07_s3.rs.in", "c03_compaction.rs.in"],
+    "verus": ["c02_cas.rs.in", "c07_s3.rs.in", "c03_compaction.rs.in", "c02_wrappers.rs.in"],
     "explanation": "All interleavings are covered through the assumed conditional-PUT contract of the object store, not explored: each attempt is load -> pure transform -> put-with-the-ETag-just-loaded and reports success only after the put succeeded (per-function obligations, discharged); with atomic conditional PUT every successful mutation is f_op(previous version) and every failed one leaves the object unchanged, so the version history is a one-at-a-time history and every version satisfies the chunk-map/time-index invariant. The serialisation argument itself is not mechanised.",
     "assumptions": [
         "object_store conditional PUT: Create succeeds only if absent, Update(etag) only if the stored ETag matches, both atomic; a failed put has no effect (ghost ObjStore / catalog store shims)",
